@@ -13,6 +13,7 @@ import (
 // interface says "it may be a zero copy write"; the caller must not modify bs before Flush), and every Malloc
 // returns its own chunk.
 type zcWriter struct {
+	OnOp   func() // called at the start of every Malloc / WriteBinary (lets a test look at the caller's data DURING an encode)
 	sink   io.Writer
 	chunks [][]byte
 	n      int
@@ -22,6 +23,9 @@ type zcWriter struct {
 var _ bufiox.Writer = (*zcWriter)(nil)
 
 func (w *zcWriter) Malloc(n int) ([]byte, error) {
+	if w.OnOp != nil {
+		w.OnOp()
+	}
 	if w.err != nil {
 		return nil, w.err
 	}
@@ -38,6 +42,9 @@ func (w *zcWriter) Malloc(n int) ([]byte, error) {
 }
 
 func (w *zcWriter) WriteBinary(bs []byte) (int, error) {
+	if w.OnOp != nil {
+		w.OnOp()
+	}
 	if w.err != nil {
 		return 0, w.err
 	}
